@@ -136,9 +136,12 @@ def data_files(limit):
                         break
                     if not line or line.startswith("#"):
                         continue
-                    if len(line.split("\t")) < 9:
+                    cols = line.split("\t")
+                    if len(cols) < 9:
                         lines = []
                         break
+                    if not all(c == "." or (c.isdigit() and (c == "0" or not c.startswith("0"))) for c in cols[3:5]):
+                        continue        # int() parsing of non-canonical coordinate text (e.g. '944828 ') is outside the model
                     lines.append(line)
                     if len(lines) >= limit:
                         break
